@@ -384,9 +384,35 @@ fn sc_setters(ctx: &mut Ctx, max_len: usize) {
             nested.add(&native_pubkey(0));
             let elems = vec![native_pubkey(1), native_pubkey(0), NativeScript::new_script_all(&ScriptAll::new(&nested)), NativeScript::new_timelock_start(&TimelockStart::new_timelockstart(&bn(5)))];
             let hist: Vec<usize> = (0..n).map(|_| ctx.choose(elems.len())).collect();
-            let mut ns = NativeScripts::new();
-            for h in &hist {
-                ns.add(&elems[*h]);
+            // how the collection handed to the setter came about: built by add, decoded from bytes that
+            // already repeat elements (tagged / untagged / indefinite), or decoded in part and then added to
+            let path = ctx.choose(5);
+            let items: Vec<Vec<u8>> = hist.iter().map(|h| elems[*h].to_bytes()).collect();
+            let decode = |its: &[Vec<u8>], indef: bool, tagged: bool| NativeScripts::from_bytes(set_bytes(its, indef, tagged));
+            let ns = match path {
+                0 => {
+                    let mut ns = NativeScripts::new();
+                    for h in &hist {
+                        ns.add(&elems[*h]);
+                    }
+                    Ok(ns)
+                }
+                1 => decode(&items, false, true),
+                2 => decode(&items, false, false),
+                3 => decode(&items, true, true),
+                _ => decode(&items[..n / 2], false, true).map(|mut ns| {
+                    for h in &hist[n / 2..] {
+                        ns.add(&elems[*h]);
+                    }
+                    ns
+                }),
+            };
+            let ns = match ns {
+                Ok(x) => x,
+                Err(e) => return ctx.violation(format!("{}/witness-setter/collection-bytes-rejected/native-scripts", P), format!("path {} history {:?}: {:?}", path, hist, e)),
+            };
+            if path != 0 {
+                ctx.hit("setter:collection-decoded-from-bytes");
             }
             ws.set_native_scripts(&ns);
             let want: Vec<Vec<u8>> = first_insertion(&hist).iter().map(|i| elems[*i].to_bytes()).collect();
@@ -417,9 +443,33 @@ fn sc_setters(ctx: &mut Ctx, max_len: usize) {
         _ => {
             let elems = datum_alphabet();
             let hist: Vec<usize> = (0..n).map(|_| ctx.choose(elems.len())).collect();
-            let mut pl = PlutusList::new();
-            for h in &hist {
-                pl.add(&elems[*h].0);
+            let path = ctx.choose(5);
+            let items: Vec<Vec<u8>> = hist.iter().map(|h| elems[*h].0.to_bytes()).collect();
+            let decode = |its: &[Vec<u8>], indef: bool, tagged: bool| PlutusList::from_bytes(set_bytes(its, indef, tagged));
+            let pl = match path {
+                0 => {
+                    let mut pl = PlutusList::new();
+                    for h in &hist {
+                        pl.add(&elems[*h].0);
+                    }
+                    Ok(pl)
+                }
+                1 => decode(&items, false, true),
+                2 => decode(&items, false, false),
+                3 => decode(&items, true, true),
+                _ => decode(&items[..n / 2], false, true).map(|mut pl| {
+                    for h in &hist[n / 2..] {
+                        pl.add(&elems[*h].0);
+                    }
+                    pl
+                }),
+            };
+            let pl = match pl {
+                Ok(x) => x,
+                Err(e) => return ctx.violation(format!("{}/witness-setter/collection-bytes-rejected/plutus-data", P), format!("path {} history {:?}: {:?}", path, hist, e)),
+            };
+            if path != 0 {
+                ctx.hit("setter:collection-decoded-from-bytes");
             }
             ws.set_plutus_data(&pl);
             // the element is the datum as the ledger hashes it: its bytes
@@ -733,7 +783,7 @@ pub fn scenario(name: &str, tier: Tier) -> Option<BoxedScenario> {
 
 pub fn run(tier: Tier, seed: u64) -> i32 {
     let mut rep = Report::new(P, tier, seed);
-    rep.rule = "sets: every insertion history (with repeats) of length <= L over 4 elements into TransactionInputs, Ed25519KeyHashes, Credentials, Certificates, VotingProposals, Vkeywitnesses, BootstrapWitnesses x arrival path {add, bytes tagged/untagged x definite/indefinite, JSON, decode-a-prefix-then-add at every split, inside a transaction body (fields 0, 13, 18, 14, 4, 20) or witness set (fields 0, 2)}; oracle: emitted items (cut out of the bytes by refcbor) == history with later repeats dropped, also after JSON and bytes round trips, len/get agree, add's return value == 'was new'. witness_setters: every history of <= L over 4 native scripts, 4 Plutus scripts (same bytes under two languages) and 5 datums (same value constructed / decoded / decoded non-canonical) through the typed setters; oracle: each emitted once, first-insertion order, identity = emitted bytes. asset_maps: every sequence of <= L insertions over 3 policies x 8 names (lengths 0,1,1,2,23,24,25,32, longer names bytewise smaller) through 8 paths (MultiAsset::set_asset, Assets+MultiAsset::insert, Value, decode from unsorted bytes / JSON, builder add_mint_asset, MintBuilder, set_mint); oracle: key order canonical (length first, then bytewise) at both levels and content == last-write / sum model. builder: BFS over builder histories, each end state built 12 times under 4 hash seeds and on a clone; byte-identical, and no set-typed field of the built transaction repeats an element, every value and the mint canonical.".into();
+    rep.rule = "sets: every insertion history (with repeats) of length <= L over 4 elements into TransactionInputs, Ed25519KeyHashes, Credentials, Certificates, VotingProposals, Vkeywitnesses, BootstrapWitnesses x arrival path {add, bytes tagged/untagged x definite/indefinite, JSON, decode-a-prefix-then-add at every split, inside a transaction body (fields 0, 13, 18, 14, 4, 20) or witness set (fields 0, 2)}; oracle: emitted items (cut out of the bytes by refcbor) == history with later repeats dropped, also after JSON and bytes round trips, len/get agree, add's return value == 'was new'. witness_setters: every history of <= L over 4 native scripts, 4 Plutus scripts (same bytes under two languages) and 5 datums (same value constructed / decoded / decoded non-canonical) through the typed setters, the collection handed over built by add / decoded from bytes that repeat elements (tagged, untagged, indefinite) / decoded in part and then added to; oracle: each emitted once, first-insertion order, identity = emitted bytes. asset_maps: every sequence of <= L insertions over 3 policies x 8 names (lengths 0,1,1,2,23,24,25,32, longer names bytewise smaller) through 8 paths (MultiAsset::set_asset, Assets+MultiAsset::insert, Value, decode from unsorted bytes / JSON, builder add_mint_asset, MintBuilder, set_mint); oracle: key order canonical (length first, then bytewise) at both levels and content == last-write / sum model. builder: BFS over builder histories, each end state built 12 times under 4 hash seeds and on a clone; byte-identical, and no set-typed field of the built transaction repeats an element, every value and the mint canonical.".into();
     rep.assume("element identity is the element's serialized bytes (for Plutus scripts: language + bytes): two datums of equal value but different encodings hash differently and are distinct elements");
     rep.assume("a decoder that rejects an input that repeats an element also satisfies the property (nothing is held); a decoder that rejects a duplicate-free input does not");
     rep.trusted_base = vec!["harness/src/refcbor.rs".into(), "RFC 8949 §4.2.3 length-first map key order (notes/ledger_rules.md §8)".into()];
@@ -748,6 +798,7 @@ pub fn run(tier: Tier, seed: u64) -> i32 {
         "setter:native",
         "setter:plutus",
         "setter:datums",
+        "setter:collection-decoded-from-bytes",
         "setter:same-bytes-constructed-and-decoded",
         "setter:same-value-different-bytes-both-kept",
         "canonical-order",
